@@ -5,8 +5,8 @@ package main
 // verified, which items were present) for TLC to compare with the HAP specification's structure (C04).
 
 import (
-	gocontext "context"
 	"bytes"
+	gocontext "context"
 	"crypto/ed25519"
 	"encoding/json"
 	"fmt"
@@ -29,7 +29,10 @@ func tagsOf(b []byte) []int {
 	if err != nil {
 		return []int{-1}
 	}
-	return t.Tags()
+	if tags := t.Tags(); tags != nil {
+		return tags
+	}
+	return []int{} // an empty body: no items (never null in the trace)
 }
 
 func randomName(rng *rand.Rand) string {
@@ -106,11 +109,12 @@ func runHonest(b Beh, seed int64, big bool) []J {
 	rng := rngFor(seed, 17000000+b.ID)
 	h := &honestRun{id: b.ID}
 	var st struct {
-		Code string `json:"code"`
-		Mode string `json:"mode"`
-		NReq int    `json:"nreq"`
-		RV   int    `json:"rv"` // pair-verify runs again inside the session, this many times
-		KA   bool   `json:"ka"` // the accessory sends keep-alives (every 200 microseconds) during the whole run
+		Code  string `json:"code"`
+		Mode  string `json:"mode"`
+		NReq  int    `json:"nreq"`
+		Probe bool   `json:"probe"` // a protected request (GET, no body, no length header) on the connection before pair-verify
+		RV    int    `json:"rv"`    // pair-verify runs again inside the session, this many times
+		KA    bool   `json:"ka"`    // the accessory sends keep-alives (every 200 microseconds) during the whole run
 	}
 	if len(b.Steps) > 0 {
 		json.Unmarshal(b.Steps[0], &st)
@@ -261,6 +265,14 @@ func runHonest(b Beh, seed int64, big bool) []J {
 	}
 	defer c.Close()
 	c.Timeout = 6 * time.Second
+	if st.Probe {
+		pm, perr := c.Do("GET", "/accessories", "", nil)
+		if perr != nil {
+			h.fail("Talk", "request before pair-verify not answered: "+perr.Error())
+			return h.lines
+		}
+		h.log(J{"name": "probe", "http": pm.Status, "framed": framed(pm)})
+	}
 	vc := &ref.VerifyClient{ID: id, Rnd: rndFunc(rng)}
 	m, t, err := c.PostTLV("/pair-verify", vc.V1())
 	if err != nil {
